@@ -9,6 +9,24 @@ from gen import c09 as G
 
 
 def run(rep, tier, seed, replay):
+    # what the property leaves open is measured on the compiled code first (gen/params_c09.py reads the result)
+    impl = ltv.build_harness("c09", ["c09.cc", "common/session.cc"])
+    import os, subprocess
+    pdir = os.path.join(ltv.BUILD, "probe")
+    os.makedirs(pdir, exist_ok=True)
+    env = dict(os.environ)
+    env.setdefault("ASAN_OPTIONS", "detect_leaks=0")
+    try:
+        pr = subprocess.run([impl, "--probe"], stdout=subprocess.PIPE, stderr=subprocess.PIPE, timeout=120, env=env)
+        probe = json.loads(pr.stdout.decode().strip().split("\n")[-1])
+    except Exception as ex:
+        probe = None
+        rep.violation("the probe of the compiled code failed (%s): no policy for the model" % str(ex)[:200],
+                      theorem="harness c09 --probe", found_input=False)
+    if probe is not None:
+        with open(os.path.join(pdir, "c09.json"), "w") as f:
+            json.dump(probe, f)
+        rep.cov.update(probed_policy=probe)
     coq = ltv.coq_build("C09")
     rep.cov.update(obligations=coq["obligations"], discharged=coq["discharged"], checker_cmd=coq["checker_cmd"],
                    theorems=coq["theorems"], axioms_per_theorem=coq["axioms"],
@@ -27,7 +45,6 @@ def run(rep, tier, seed, replay):
                        "python property oracle gen/c09.py:oracle evaluated on the implementation's output (bits vs OpenSSL verdict, "
                        "per-file size/sha1/mtime before vs after, directory entry count, reference counts after stop/close)"]))
     model = ltv.build_model("C09")
-    impl = ltv.build_harness("c09", ["c09.cc", "common/session.cc"])
     if replay:
         cases = [json.load(open(replay))["case"]]
         stats = {"replay": 1}
@@ -53,7 +70,13 @@ def run(rep, tier, seed, replay):
             nontrivial.add(hashlib.sha1(case.encode()).digest())
         if len(samples) < 5 and i % 53 == 21:
             samples.append({"case": case[:300], "impl": full[:500]})
+        if full.startswith("SKIPPED-AFTER-HANGS"):
+            continue
         viol = G.oracle(case, full)
+        if case.startswith("G "):       # no model side: the oracle judges
+            for kl, text in viol:
+                rep.violation(text, case=case, model=m, impl=full, theorem="property oracle C09 (beyond 4 GiB)", klass=kl)
+            continue
         if m != o:
             mism += 1
             if viol:
